@@ -19,21 +19,33 @@ from . import c19_sets
 
 LEVEL = 'translation_validation'
 LEVEL_TEXT = ('Seed/history independence is a property of the running interpreter, so the decisive step is differential: the same '
-              'inputs are evaluated in fresh processes under different PYTHONHASHSEED values (and cached/uncached, '
-              'original/copy) and every listed output must be identical. What a theorem can carry is proved: the table of '
+              'inputs are evaluated in fresh processes under different PYTHONHASHSEED values, and inside a process over histories '
+              '(first/later call, evaluation orders, read - perturb - read through every public setter and edit, original/copy, '
+              'primed/unprimed object) and every listed output must be identical. What a theorem can carry is proved: the table of '
               'all hash() call sites regenerated from the source contains only int / int-tuple / delegating arguments '
               '(the only seeded primitive, hash(str), occurs solely in Molecule/Reaction.__hash__, which C19 does not list), '
-              'the order-sensitive set uses equal the reviewed list, and the seed-free hash model obeys CPython\'s contract.')
+              'the order-sensitive set uses equal the reviewed list and are int-keyed (one int-tuple site), and CPython\'s set for int '
+              'keys is an executable Lean model (probing, dummies, resizing, pop finger, merge/copy/difference/intersection) that is '
+              'proved to refine the documented finite-set semantics, to be a function of hashes and history only, and is compared '
+              'with real sets on every run, including the recorded container histories of the reviewed sites.')
 LEVEL_NOTE = ('Lean kernel; gen_hashsites AST translator with its reviewed typing environment (names assumed int / int '
-              'sequence per site); CPython 3.12 (int/tuple hash seed-free, set iteration a function of hashes and insertion '
-              'history); worker processes; pyx2py rendering for pack bytes. OS process state is not modelled.')
-TECHNIQUE = 'Lean theorems over regenerated hash/set-site tables + cross-process PYTHONHASHSEED differential runs'
+              'sequence per site); Py/IntSet.lean is a hand transcription of CPython 3.12 setobject.c validated by exact '
+              'correspondence on every run (termination of its scans is by fuel, not proved); the site replay recompiles the '
+              'site functions over a logging wrapper of real sets (the traced run must reproduce the unpatched results); '
+              'worker processes; pyx2py rendering for pack bytes. OS process state is not modelled.')
+TECHNIQUE = ('Lean theorems over regenerated hash/set-site tables + verified executable model of CPython int sets (refinement, determinism) '
+             '+ cross-process PYTHONHASHSEED and read-perturb-read differential runs')
 RULE = ('corpus + handmade SMILES sampled with the run seed; each evaluated in k fresh interpreters with different '
-        'PYTHONHASHSEED; a case = (molecule, output field); non-trivial when the molecule has >= 4 atoms; distinct by (smiles, field)')
+        'PYTHONHASHSEED; a case = (molecule, output field) — non-trivial when the molecule has >= 4 atoms; distinct by (smiles, field); '
+        'set-operation histories (random / growth across every resize boundary / from-dict / dict-order) — a case = one program, '
+        'non-trivial with >= 3 observations, distinct by its observation digest; site replays — a case = one molecule, non-trivial '
+        'when a set.pop() was observed')
 HAS_DRIVER = True
-TRUSTED = ['gen_hashsites translator and its typing environment', 'Spec/SetSites.lean reviewed list']
+TRUSTED = ['gen_hashsites translator and its typing environment', 'Spec/SetSites.lean reviewed list and key kinds',
+           'Spec/PySetSemantics.lean (documented finite-set semantics)', 'c19_sets.TSet logging wrapper (checked: traced run == unpatched run)']
 ASSUMPTIONS = ['hash(int), hash(tuple of int), hash(None), hash(bool) are seed independent in CPython 3.12',
-               'set iteration order is a deterministic function of element hashes and insertion history']
+               'sets of int tuples (one reviewed site) iterate as a function of hashes and history like int sets do (int sets: modelled, proved, compared)',
+               'the scans of the set model never run out of fuel (checked on every compared history, not proved)']
 
 # categories the corpus lacks: radicals, organometallics drawn with covalent metal-donor bonds, sandwich complexes,
 # molecules whose equivalent atoms differ only by stereo labels (meso / pseudo-asymmetric / E,Z pairs), isotopes
@@ -188,7 +200,7 @@ def site_replay_stream(ctx, smis):
     observed pop result / iteration order"""
     if not getattr(ctx, 'build_ok', True):
         return
-    jobs, sites, skipped = [], {}, 0
+    jobs, sites, skipped, lost = [], {}, 0, {}
     for s in smis:
         try:
             t, funcs, real, traced = c19_sets.replay_sites(s)
@@ -203,6 +215,8 @@ def site_replay_stream(ctx, smis):
             continue
         for k, v in t.sites.items():
             sites[k] = sites.get(k, 0) + v
+        for k, v in t.lost.items():
+            lost[k] = lost.get(k, 0) + v
         jobs.append((s, t))
     out = core.run_driver('C19', [c19_sets.render(t.prog) for _, t in jobs]) if jobs else []
     for (s, t), m in zip(jobs, out):
@@ -218,10 +232,23 @@ def site_replay_stream(ctx, smis):
                       f'{s}: observation {i} ({obs_ops[i][0] if i < len(obs_ops) else "?"}): CPython {eo[i][:100] if i < len(eo) else None!r} model {mo[i][:100] if i < len(mo) else m[:100]!r}')
     if smis and not jobs:
         ctx.broke('correspondence', 'site-replay', f'none of {len(smis)} molecules could be replayed ({skipped} skipped)')
+    # key kinds of the reviewed sites (Spec/SetSites.lean `reviewedSetSiteKeys`): a set listed as int-keyed never left the int model
+    kinds = c19_sets.reviewed_key_kinds()
+    for key, n in lost.items():
+        func, var, why = key.split(':', 2)
+        if kinds.get((func, var)) == 'int':
+            ctx.cov['disagreements_checked'] += 1
+            ctx.broke('correspondence', 'site-key-kind', f'{func}: set `{var}` is reviewed as int-keyed but {why} ({n} times)')
+    for (func, var), kind in kinds.items():
+        if kind == 'int' and jobs and not any(f == func for f, _ in sites):
+            ctx.notes.append(f'site replay: reviewed int-keyed site {func}:{var} issued no order-sensitive operation in this run')
     ctx.cov['site_replay'] = {'molecules': len(jobs), 'skipped': skipped, 'ops': sum(len(t.prog) for _, t in jobs),
                               'observations': sum(len(t.obs) for _, t in jobs),
                               'site_ops': {f'{f}:{o}': n for (f, o), n in sorted(sites.items())},
-                              'histories_lost_to_non_int_or_unknown_operands': sum(len(t.unsupported) for _, t in jobs)}
+                              'histories_lost_to_non_int_or_unknown_operands': sum(len(t.unsupported) for _, t in jobs),
+                              'lost_by_site_variable': dict(sorted(lost.items())),
+                              'discards_of_non_int_non_members': sum(t.foreign_discards for _, t in jobs),
+                              'reviewed_key_kinds': {f'{f}:{v}': k for (f, v), k in sorted(kinds.items())}}
 
 
 def correspond(ctx):
